@@ -21,7 +21,7 @@ RULE = ("histories of 0-8 operations over a small name pool (builtin names and n
         "arity/types). Expected name binding is also computed by the checker itself (last live registration). Non-trivial = distinct "
         "history with at least one register and one query that reaches a custom function.")
 
-NAMES = ["abs", "length", "max", "sort_by", "foo", "bar", "id", "map"]
+NAMES = ["abs", "length", "max", "sort_by", "foo", "bar", "id", "map", "Abs", "LENGTH", "Foo", "FOO", "sort_By", "foo_", "_foo", "abs2"]
 QUERIES = ["{f}(@)", "{f}(a, b)", "{f}(&a, @)", "{f}()", "{f}(`1`, 'x')", "{f}({g}(@))", "[{f}(@), {g}(a)]", "{f}(@, &{g}(@))",
            "a.{f}(@)", "{f}(`[1,2]`)", "{f}(`[\"a\"]`)", "{f}(*)", "{f}(@).args[0]",
            # variadic tails: every argument after the declared ones is checked against the variadic type, not only the first
